@@ -105,6 +105,23 @@ class CallGraph:
         for b in f.fn_bodies():
             if b.sig and FORMAT_FN_RE.search(b.sig) and b.kind == 'Fn':
                 self.format_fns.append(b.path)
+        # which concrete types are ever coerced to a trait object inside the crate (unsizing casts): the candidates of a
+        # `dyn StdTrait` call are the crate impls whose self type occurs among these sources
+        self.unsize_sources = defaultdict(set)
+        for b in f.fn_bodies():
+            for blk in b.blocks:
+                for s_ in blk['stmts']:
+                    if s_['k'] == 'assign' and s_['rv']['k'] == 'cast' and 'Unsize' in s_['rv'].get('ck', '') and 'dyn ' in s_['rv']['ty']:
+                        op = s_['rv']['op']
+                        if op['k'] in ('copy', 'move'):
+                            src = b.locals[op['place']['l']]['ty']
+                            for m_ in re.finditer(r'dyn ([\w:]+)', s_['rv']['ty']):
+                                self.unsize_sources[m_.group(1)].add(src)
+        self.impl_self = {}
+        for imp in f.impls:
+            if imp['trait']:
+                for it in imp['items']:
+                    self.impl_self[it['path']] = imp['self_ty']
         for b in f.fn_bodies():
             self._body_edges(b)
         for a, es in self.edges.items():
@@ -163,9 +180,18 @@ class CallGraph:
                     self.edges[b.path].append((name, bb, 'direct'))
                 elif c.get('trait') and (c.get('resolved_kind') in (None, 'virtual')) and c['path'] in self.impl_methods or \
                         (c.get('trait') and c['path'] in self.impl_methods and 'dyn ' in (c.get('self_ty') or '')):
+                    std_trait = c['trait'].split('::')[0] in ('std', 'core', 'alloc')
+                    srcs = self.unsize_sources.get(c['trait'], set())
                     for imp in self.impl_methods[c['path']]:
+                        if std_trait:
+                            st_ = (self.impl_self.get(imp) or '').split('<')[0]
+                            if not st_ or not any(st_ in x for x in srcs):
+                                continue
                         self.edges[b.path].append((imp, bb, 'dyn'))
-                    self.ext[b.path].append((self.USER + ':' + c['path'], bb, t))
+                    if std_trait:
+                        self.ext[b.path].append((name, bb, t))
+                    else:
+                        self.ext[b.path].append((self.USER + ':' + c['path'], bb, t))
                 elif c.get('trait') and c['trait'].split('::')[0] not in ('std', 'core', 'alloc') and c.get('resolved') is None \
                         and c['trait'] in f.traits:
                     # crate trait, unresolved, no impls with bodies -> user code
